@@ -115,6 +115,8 @@ def probes(case, layers, view, img):
     n = l2_size(cfg)
     if img.info["n_l2"] > 128:
         p["qcow2.l2_tables_gt_128"] = 1
+    if img.info.get("tight_eof"):
+        p["qcow2.file_ends_inside_last_compressed_sector"] = 1
     if cfg["version"] == 2:
         p["qcow2.v2_header_without_v3_fields"] = 1
         if cfg["exts"] or cfg["backing"]:
